@@ -1259,6 +1259,11 @@ dt_strfdtdur(
 		goto out;
 	}
 
+	if (UNLIKELY(fmt == NULL)) {
+		/* no default format for this kind of duration */
+		bp = buf;
+		goto out;
+	}
 	/* assign and go */
 	bp = buf;
 	fp = fmt;
